@@ -53,7 +53,8 @@ def build_receiver(recv, flat, lens):
     if recv == "fresh" or recv is None:
         return RA(flat.copy(), list(lens)), None
     rows = gen.split_rows(flat, lens)
-    junk = lambda k: (np.arange(k) * 0 - 7).astype(flat.dtype)
+    jv = np.array([-7]).astype(flat.dtype)[0]   # wraps for unsigned, True for bool
+    junk = lambda k: np.full(k, jv, dtype=flat.dtype)
     if recv == "lazyrows":
         prow = [junk(2)]
         for r in rows:
@@ -63,7 +64,7 @@ def build_receiver(recv, flat, lens):
     if recv == "lazycols+2":
         prow = []
         for r in rows:
-            q = np.full(2 * len(r), -7, dtype=flat.dtype)
+            q = np.full(2 * len(r), jv, dtype=flat.dtype)
             q[::2] = r
             prow.append(q)
         parent = RA(np.concatenate(prow) if prow else flat[:0], [len(r) for r in prow])
@@ -75,7 +76,7 @@ def build_receiver(recv, flat, lens):
     if recv == "lazychain":
         prow = [junk(1)]
         for r in rows[::-1]:
-            q = np.full(2 * len(r) + 1, -7, dtype=flat.dtype)
+            q = np.full(2 * len(r) + 1, jv, dtype=flat.dtype)
             q[1::2] = r[::-1]
             prow += [q, junk(3)]
         parent = RA(np.concatenate(prow), [len(r) for r in prow])
